@@ -367,6 +367,9 @@ static void marshal_one_fiber(MarshalState *st, JanetFiber *fiber, int flags) {
         j = i - JANET_FRAME_SIZE;
         i = frame->prevframe;
     }
+    /* Values already pushed for a call the top frame has not made yet (stopped between push and call) */
+    for (int32_t k = fiber->stackstart; k < fiber->stacktop; k++)
+        marshal_one(st, fiber->data[k], flags + 1);
     if (fiber->env) {
         marshal_one(st, janet_wrap_table(fiber->env), flags + 1);
     }
@@ -1218,6 +1221,10 @@ static const uint8_t *unmarshal_one_fiber(
     if (stack < 0) {
         janet_panic("fiber has too many stackframes");
     }
+
+    /* Values pushed for a pending call */
+    for (int32_t i = fiber_stackstart; i < fiber_stacktop; i++)
+        data = unmarshal_one(st, data, fiber->data + i, flags + 1);
 
     /* Check for fiber env */
     if (fiber_flags & JANET_FIBER_FLAG_HASENV) {
